@@ -199,6 +199,23 @@ func (ex *Exec) runRoot() {
 		}
 		ex.modActive = true
 	}
+	// frame of an interface method this function implements: its writes must stay within it
+	if (ct == nil || !ct.Trusted) && len(fn.Params) > 0 {
+		for _, ict := range ex.ifaceContractsFor(fn) {
+			if !ict.HasMod {
+				continue
+			}
+			vars := map[string]Val{"recv": fr.params[fn.Params[0].Name()]}
+			for i, p := range fn.Params[1:] {
+				vars[fmt.Sprintf("arg%d", i)] = fr.params[p.Name()]
+			}
+			en := ex.newEnv(fr, pre, pre, vars)
+			for _, m := range ict.Modifies {
+				ex.modAllowed = append(ex.modAllowed, ex.modLocs(en, m)...)
+			}
+			ex.modActive = true
+		}
+	}
 	ex.cover(fr, st, "entry", fn.Pos())
 	ex.runBody(fr, st)
 	ex.finishRoot(fr, pre)
@@ -274,11 +291,8 @@ func (ex *Exec) reassumeRootInvs(st *State) {
 	if rf == nil || ex.specMode != 0 || ex.invDepth > 0 || (rf.ct != nil && rf.ct.NoInv) {
 		return
 	}
-	if ex.ownWrites > 0 {
-		// an invariant may relate several objects (a registry and its entries): once this function has written
-		// anywhere, only what it proves itself is known
-		return
-	}
+	// an invariant may relate several objects (a registry and its entries): it is re-assumed only if this function
+	// has written to none of the heap locations (field, map or memory keys) the invariant reads
 	var cands []Val
 	for _, p := range rf.fn.Params {
 		if v, ok := rf.vals[p]; ok {
@@ -306,8 +320,22 @@ func (ex *Exec) reassumeRootInvs(st *State) {
 		if seen[ref] || ex.isFreshTerm(ref) || ref == "0" {
 			continue
 		}
+		ex.keyLog = map[string]bool{}
 		t, _ := ex.typeInvTerm(rf, st, v)
+		reads := ex.keyLog
+		ex.keyLog = nil
 		if t == "" || t == "true" {
+			continue
+		}
+		touched := false
+		for k := range reads {
+			if ex.ownWritten[k] {
+				touched = true
+				break
+			}
+		}
+		if touched {
+			ex.note("invariant of %s not re-assumed after a call: this function wrote to a location it reads", typeKey(v.T))
 			continue
 		}
 		seen[ref] = true
@@ -418,6 +446,8 @@ func (ex *Exec) finishRoot(fr *Frame, pre *State) {
 		}
 	}
 	ex.cover(fr, st, "return", fn.Pos())
+	// contracts on interface methods this function implements: every implementation owes their postconditions
+	ex.checkIfaceEnsures(fr, st, pre, results)
 	if ct == nil {
 		return
 	}
@@ -943,6 +973,7 @@ func (ex *Exec) applyContract(fr *Frame, st *State, fn *ssa.Function, ct *FuncCo
 	// caller-side call-site clauses of the root contract
 	ex.checkCallSites(fr, st, key, args, pos)
 	// effects
+	ex.calleeHavoc++
 	if ct.HasMod {
 		en := ex.newEnv(calleeFr, st, pre, vars)
 		en.fr = nil
@@ -988,6 +1019,7 @@ func (ex *Exec) applyContract(fr *Frame, st *State, fn *ssa.Function, ct *FuncCo
 			ex.havocKeys(st, keys)
 		}
 	}
+	ex.calleeHavoc--
 	st.allocCtr = ex.bumpAlloc(st)
 	res := ex.freshVal("res."+fn.Name(), fn.Signature.Results())
 	ex.assumeResultFacts(fr, st, fn, res)
@@ -1132,10 +1164,24 @@ func (ex *Exec) onLock(fr *Frame, st *State, t *target, acquire bool, pos token.
 					if f.Name() != fname {
 						continue
 					}
+					ex.interfering = true
 					ex.storeField(st, t.S, f, t.ref, ex.freshVal("interf."+fname, f.Type()))
-					if _, ok := f.Type().Underlying().(*types.Map); ok {
+					ex.interfering = false
+					if mt, ok := f.Type().Underlying().(*types.Map); ok {
 						// map contents may have changed as well
 						ex.havocKeys(st, ex.mapKeys(f.Type()))
+						// whatever the map holds now was allocated before this point
+						_, vals, ksort, vl, ok := mapKeyNames(f.Type())
+						if ok {
+							for i, l := range vl {
+								if l.Sort != sInt || strings.HasSuffix(l.Path, ".t") {
+									continue
+								}
+								_ = mt
+								arr := ex.heapGet(st, vals[i], sArr(sInt, sArr(ksort, l.Sort)))
+								ex.emit("(assert (forall ((qm Int) (qk " + ksort + ")) (! (<= (select (select " + arr + " qm) qk) " + st.allocCtr + ") :pattern ((select (select " + arr + " qm) qk)))))")
+							}
+						}
 					}
 				}
 			}
@@ -1828,4 +1874,121 @@ func callersObligation(P *Program, fn *ssa.Function, ct *FuncContract) *Obligati
 		o.Detail += " -- unexpected: " + strings.Join(bad, "; ")
 	}
 	return o
+}
+
+
+// ifaceContractsFor lists the interface-method contracts ("pkg.Iface.Method") that fn implements.
+func (ex *Exec) ifaceContractsFor(fn *ssa.Function) []*FuncContract {
+	recv := fn.Signature.Recv()
+	if recv == nil {
+		return nil
+	}
+	var out []*FuncContract
+	var keys []string
+	for k := range ex.C.Funcs {
+		keys = append(keys, k)
+	}
+	sort.Strings(keys)
+	for _, k := range keys {
+		ict := ex.C.Funcs[k]
+		if (len(ict.Ensures) == 0 && !ict.HasMod) || ex.P.Funcs[k] != nil {
+			continue
+		}
+		it, mname := ex.P.ifaceOfKey(k)
+		if it == nil || mname != fn.Name() {
+			continue
+		}
+		if types.Implements(recv.Type(), it) {
+			out = append(out, ict)
+		}
+	}
+	return out
+}
+
+// ifaceOfKey resolves "pkg.Type.Method" to an interface type of the module.
+func (P *Program) ifaceOfKey(key string) (*types.Interface, string) {
+	k := strings.LastIndex(key, ".")
+	if k < 0 {
+		return nil, ""
+	}
+	tname, mname := key[:k], key[k+1:]
+	j := strings.LastIndex(tname, ".")
+	if j < 0 {
+		return nil, ""
+	}
+	pkgShort, typ := tname[:j], tname[j+1:]
+	for path, p := range P.TPkgs {
+		if shortPkg(path) != pkgShort {
+			continue
+		}
+		if tn, ok := p.Scope().Lookup(typ).(*types.TypeName); ok {
+			if it, ok := tn.Type().Underlying().(*types.Interface); ok {
+				return it, mname
+			}
+		}
+	}
+	return nil, ""
+}
+
+func (ex *Exec) checkIfaceEnsures(fr *Frame, st, pre *State, results []Val) {
+	fn := fr.fn
+	if ex.specMode != 0 || len(fn.Params) == 0 {
+		return
+	}
+	for _, ict := range ex.ifaceContractsFor(fn) {
+		vars := map[string]Val{"recv": fr.params[fn.Params[0].Name()]}
+		for i, p := range fn.Params[1:] {
+			vars[fmt.Sprintf("arg%d", i)] = fr.params[p.Name()]
+		}
+		for k, rv := range results {
+			vars[fmt.Sprintf("result%d", k)] = rv
+			if k == 0 {
+				vars["result"] = rv
+			}
+		}
+		for _, c := range ict.Ensures {
+			en := ex.newEnv(fr, st, pre, vars)
+			en.pos = token.NoPos
+			t, err := en.evalBool(c.E)
+			if err != nil {
+				ex.errors = append(ex.errors, fmt.Sprintf("%s: interface ensures %s: %v", c.Line, c.Label, err))
+				continue
+			}
+			o := ex.oblige(fr, st, "post", "iface:"+c.Label, t, fn.Pos(), "postcondition of the interface method ("+ict.Key+"): "+c.Src)
+			if o != nil {
+				o.Props = c.Props
+				o.HasQuant = en.quant
+			}
+		}
+	}
+}
+
+// assumeIfaceEnsures: what every implementation of the interface method guarantees (checked on each of them).
+func (ex *Exec) assumeIfaceEnsures(fr *Frame, st *State, ict *FuncContract, recv Val, args []Val, r Val) {
+	vars := map[string]Val{"recv": recv}
+	for i, a := range args {
+		vars[fmt.Sprintf("arg%d", i)] = a
+	}
+	if tup, ok := r.T.(*types.Tuple); ok {
+		for k := 0; k < tup.Len(); k++ {
+			lo, hi := tupleRange(tup, k)
+			if hi <= len(r.L) {
+				vars[fmt.Sprintf("result%d", k)] = Val{T: tup.At(k).Type(), L: r.L[lo:hi]}
+			}
+		}
+		if tup.Len() == 1 {
+			vars["result"] = vars["result0"]
+		}
+	} else if r.T != nil {
+		vars["result"], vars["result0"] = r, r
+	}
+	for _, c := range ict.Ensures {
+		en := ex.newEnv(fr, st, ex.preState, vars)
+		t, err := en.evalBool(c.E)
+		if err != nil {
+			ex.errors = append(ex.errors, fmt.Sprintf("%s: interface ensures %s: %v", c.Line, c.Label, err))
+			continue
+		}
+		ex.assume(st.pc, t)
+	}
 }
